@@ -503,8 +503,11 @@ def check_x_case(ctx, tags, spec, dev_spec, compiler, K):
     else:
         bad = conform(ccmds, x_layout_cmds(N), gp, n)
     seen = set()
+    lost = compiler == "Xunitary" and s2_lost(spec, ccmds)
     for k, msg in bad:
-        if k == "dagger":
+        if lost and k in ("wire", "gate", "length", "shared", "range"):
+            sig = "xunitary:s2-merge:squeezer-lost"      # the recorded merge defect shows up as a non-conforming circuit too
+        elif k == "dagger":
             sig = "x:dagger-survives-compile"
         elif compiler == "Xstrict" and gp is None:
             sig = "xstrict:layout-unchecked"
@@ -541,22 +544,26 @@ def states_equal(a, b, tol=1e-7):
     return bool(np.allclose(a[0], b[0], atol=tol, rtol=0) and np.allclose(a[1], b[1], atol=tol, rtol=0))
 
 
+def s2_lost(spec, ccmds):
+    """repeated squeezers on >= 2 pairs and the compiled S2gates are not one per pair with the summed r"""
+    N = spec["n"] // 2
+    want = {}
+    for c in spec["cmds"]:
+        if c[0] == "S2gate":
+            want[tuple(c[2])] = want.get(tuple(c[2]), 0.0) + c[1][0]
+    got = {}
+    for c in ccmds:
+        if c[0] == "S2gate":
+            got.setdefault(tuple(c[2]), []).append(c[1][0])
+    ndup, _ = n_dup_pairs(spec)
+    lost = any(len(got.get((i, i + N), [])) != 1 or abs(got[(i, i + N)][0] - want.get((i, i + N), 0.0)) > 1e-9 for i in range(N))
+    return bool(lost and ndup >= 2)
+
+
 def classify_state_change(spec, compiler, ccmds, s_cmp, K):
     """name the specific cause when it is one of the recorded ones (and only then)"""
-    N = spec["n"] // 2
-    if compiler == "Xunitary":
-        want = {}
-        for c in spec["cmds"]:
-            if c[0] == "S2gate":
-                want[tuple(c[2])] = want.get(tuple(c[2]), 0.0) + c[1][0]
-        got = {}
-        for c in ccmds:
-            if c[0] == "S2gate":
-                got.setdefault(tuple(c[2]), []).append(c[1][0])
-        ndup, _ = n_dup_pairs(spec)
-        lost = any(len(got.get((i, i + N), [])) != 1 or abs(got[(i, i + N)][0] - want.get((i, i + N), 0.0)) > 1e-9 for i in range(N))
-        if lost and ndup >= 2:
-            return "s2-merge:squeezer-lost"
+    if compiler == "Xunitary" and s2_lost(spec, ccmds):
+        return "s2-merge:squeezer-lost"
     if has_dagger(spec):
         # is the compiled state exactly what the source would give with the daggers of the affected gates dropped?
         cnt = {}
